@@ -73,6 +73,15 @@ pub fn item(idx: u64, len: usize) -> RunOutcome {
     let mut o = RunOutcome::empty();
     o.evaluations = 0;
     let tails: u64 = (alpha.len() as u64).pow((len - 1) as u32);
+    // the volume is formatted once per item; every history starts from a copy-on-write clone of it
+    let store0 = match exec::build_store(&cfg) {
+        Ok(s) => s,
+        Err(e) => {
+            let v = crate::engine::viol("HARNESS", "volume-build-failed", e, 0);
+            o.violation = Some((v.clone(), Replay { property: "C01".into(), kind: "engine".into(), seed: idx, cfg: cfg.clone(), steps: vec![], violation: Some(v) }));
+            return o;
+        }
+    };
     for t in 0..tails {
         let mut steps: Vec<Step> = st[start].iter().cloned().map(|op| Step { c: 0, op, hard_at: None, sticky: false }).collect();
         steps.push(Step { c: 0, op: alpha[first].clone(), hard_at: None, sticky: false });
@@ -83,7 +92,7 @@ pub fn item(idx: u64, len: usize) -> RunOutcome {
         }
         steps.push(Step { c: 0, op: Op::Checkpoint, hard_at: None, sticky: false });
         let mut src = ReplaySource { steps: steps.clone(), i: 0 };
-        let res = exec::run(cfg.clone(), "C01", &mut src, steps.len() + 1);
+        let res = exec::run_on(cfg.clone(), store0.clone(), "C01", &mut src, steps.len() + 1);
         o.evaluations += 1;
         o.stats.steps += res.stats.steps;
         for h in res.stats.state_hashes {
